@@ -1095,3 +1095,155 @@ func c14ifaceImpl(fo *types.Func) *types.Func {
 	c14implMemo[fo] = res
 	return res
 }
+
+// ---------------------------------------------------------------------------------------
+// callback iterators: `func (n *topicNode) forEachClient(fn func(string, byte)) { for k, v := range n.clients { fn(k, v) } }`
+
+type c14iterator struct {
+	field *types.Var // clients or nodes
+	node  int        // index of the node parameter (-1 = receiver)
+	fn    int        // index of the function parameter
+}
+
+// findIterators resolves the iterator role: a function whose body ranges over <node>.clients /
+// <node>.nodes (node = receiver or parameter) and hands exactly (key, value) of every entry to its
+// function-typed parameter.
+func (e *c14env) findIterators() {
+	e.iterators = map[*types.Func]c14iterator{}
+	e.decls(func(f *flow.Func, fd *ast.FuncDecl) {
+		o := e.funcObj(fd)
+		if o == nil {
+			return
+		}
+		recv := c14recvObj(f, fd)
+		params := c14params(f)
+		for _, rs := range c14ranges(fd.Body) {
+			for _, fld := range []*types.Var{e.clientsF, e.nodesF} {
+				x, ok := c14fieldOrAlias(f, rs.X, fld)
+				if !ok || rs.Key == nil || rs.Value == nil {
+					continue
+				}
+				no := c14obj(f, x)
+				ni := -2
+				if no != nil && no == recv {
+					ni = -1
+				}
+				for i, p := range params {
+					if p == no {
+						ni = i
+					}
+				}
+				if ni == -2 || len(rs.Body.List) != 1 {
+					continue
+				}
+				// the body is exactly fn(key, value) (possibly `if !fn(k, v) { return/break }` is NOT accepted)
+				es, ok := rs.Body.List[0].(*ast.ExprStmt)
+				if !ok {
+					continue
+				}
+				call, ok := es.X.(*ast.CallExpr)
+				if !ok || len(call.Args) != 2 || c14obj(f, call.Args[0]) != c14obj(f, rs.Key) || c14obj(f, call.Args[1]) != c14obj(f, rs.Value) {
+					continue
+				}
+				id, ok := ast.Unparen(call.Fun).(*ast.Ident)
+				if !ok {
+					continue
+				}
+				for i, p := range params {
+					if f.Info.Uses[id] == p {
+						if _, isFn := p.Type().Underlying().(*types.Signature); isFn {
+							e.iterators[o] = c14iterator{field: fld, node: ni, fn: i}
+						}
+					}
+				}
+			}
+		}
+	})
+}
+
+// c14litOf resolves x to a function literal: the literal itself, or a local assigned exactly once
+// from one (`visit := func(..) {..}`).
+func c14litOf(g *flow.Func, x ast.Expr) *ast.FuncLit {
+	x = ast.Unparen(x)
+	if lit, ok := x.(*ast.FuncLit); ok {
+		return lit
+	}
+	id, ok := x.(*ast.Ident)
+	if !ok {
+		return nil
+	}
+	v := c14obj(g, id)
+	if v == nil {
+		return nil
+	}
+	var lit *ast.FuncLit
+	defs := 0
+	ast.Inspect(g.Body, func(n ast.Node) bool {
+		switch t := n.(type) {
+		case *ast.AssignStmt:
+			for i, l := range t.Lhs {
+				if c14obj(g, l) == v {
+					defs++
+					if len(t.Lhs) == len(t.Rhs) {
+						lit, _ = ast.Unparen(t.Rhs[i]).(*ast.FuncLit)
+					}
+				}
+			}
+		case *ast.ValueSpec:
+			for i, nm := range t.Names {
+				if g.Info.Defs[nm] == v {
+					defs++
+					if i < len(t.Values) {
+						lit, _ = ast.Unparen(t.Values[i]).(*ast.FuncLit)
+					}
+				}
+			}
+		}
+		return true
+	})
+	if defs != 1 {
+		return nil
+	}
+	return lit
+}
+
+// iterCall describes a call of an iterator over field fld: the node it iterates and the closure it runs.
+func (e *c14env) iterCall(g *flow.Func, call *ast.CallExpr, fld *types.Var) (node ast.Expr, lit *ast.FuncLit, ok bool) {
+	fo := c14calleeOf(g, call)
+	if fo == nil {
+		return nil, nil, false
+	}
+	it, isIt := e.iterators[fo]
+	if !isIt || it.field != fld || it.fn >= len(call.Args) {
+		return nil, nil, false
+	}
+	if it.node == -1 {
+		node = c14recvOf(g, call)
+	} else if it.node < len(call.Args) {
+		node = call.Args[it.node]
+	}
+	lit = c14litOf(g, call.Args[it.fn])
+	return node, lit, node != nil && lit != nil
+}
+
+// collectLit: the closure stores exactly m[p0] = p1 (its two parameters) into a map m.
+func c14collectLit(g *flow.Func, lit *ast.FuncLit) (dst ast.Expr, ok bool) {
+	var ps []types.Object
+	for _, fld := range lit.Type.Params.List {
+		for _, nm := range fld.Names {
+			ps = append(ps, g.Info.Defs[nm])
+		}
+	}
+	if len(ps) != 2 || len(lit.Body.List) != 1 {
+		return nil, false
+	}
+	as, isAs := lit.Body.List[0].(*ast.AssignStmt)
+	if !isAs || len(as.Lhs) != 1 || len(as.Rhs) != 1 {
+		return nil, false
+	}
+	ix, isIx := ast.Unparen(as.Lhs[0]).(*ast.IndexExpr)
+	if !isIx || c14obj(g, ix.Index) != ps[0] || c14obj(g, as.Rhs[0]) != ps[1] {
+		return nil, false
+	}
+	return ix.X, true
+}
